@@ -2,6 +2,7 @@ package main
 
 import (
 	"fmt"
+	"go/ast"
 	"go/constant"
 	"go/token"
 	"go/types"
@@ -102,17 +103,21 @@ func (s *State) assume(f string) {
 }
 
 type Frame struct {
-	fn   *ssa.Function
-	regs map[ssa.Value]Val
-	top  bool
-	ct   *Contract
+	fn    *ssa.Function
+	regs  map[ssa.Value]Val
+	top   bool
+	ct    *Contract
 	loops *loopInfo
+	names map[string]ssa.Value // source names of locals (from DebugRef), latest binding on this path
 }
 
 func (f *Frame) clone() *Frame {
-	n := &Frame{fn: f.fn, regs: make(map[ssa.Value]Val, len(f.regs)), top: f.top, ct: f.ct, loops: f.loops}
+	n := &Frame{fn: f.fn, regs: make(map[ssa.Value]Val, len(f.regs)), top: f.top, ct: f.ct, loops: f.loops, names: make(map[string]ssa.Value, len(f.names))}
 	for k, v := range f.regs {
 		n.regs[k] = v
+	}
+	for k, v := range f.names {
+		n.names[k] = v
 	}
 	return n
 }
@@ -533,7 +538,7 @@ func (ex *Exec) run(fn *ssa.Function, args []Val, bindings []Val, st *State, top
 	if st.depth > maxDepth {
 		unsupported("inlining depth exceeded at %s", fn)
 	}
-	fr := &Frame{fn: fn, regs: map[ssa.Value]Val{}, top: top, ct: ct, loops: findLoops(fn)}
+	fr := &Frame{fn: fn, regs: map[ssa.Value]Val{}, top: top, ct: ct, loops: findLoops(fn), names: map[string]ssa.Value{}}
 	for i, p := range fn.Params {
 		fr.regs[p] = args[i]
 	}
@@ -954,6 +959,9 @@ func (ex *Exec) step(fr *Frame, st *State, in ssa.Instruction) {
 	u := ex.u
 	switch x := in.(type) {
 	case *ssa.DebugRef:
+		if id, ok := x.Expr.(*ast.Ident); ok && fr.names != nil && id.Name != "_" {
+			fr.names[id.Name] = x.X
+		}
 	case *ssa.Alloc:
 		et := x.Type().Underlying().(*types.Pointer).Elem()
 		c := ex.newCell(et, x.Comment)
